@@ -416,8 +416,11 @@ static void c16_gen_mm(vf_case *c, c16_file *F)
         }
         if (l > maxline) maxline = l;
         { int cur = 0; for (int a = 0; a <= l; a++) { if (a == l || isspace((unsigned char)com[a])) { if (cur > maxtok) maxtok = cur; cur = 0; } else cur++; } }
+        if (q != special && rng_bool(r, 0.1)) sb_put(S, rng_bool(r, 0.5) ? " " : "\t ", rng_bool(r, 0.5) ? 1 : 2);   /* an indented comment line */
         sb_put(S, com, (size_t)l); sb_put(S, "\n", 1);
+        if (rng_bool(r, 0.06)) { sb_put(S, "   ", (size_t)rng_int(r, 0, 3)); sb_put(S, "\n", 1); vf_tag(c, "mm-blank-line-in-header"); }   /* blank lines may appear anywhere after the banner */
     }
+    if (rng_bool(r, 0.1)) { sb_put(S, "   ", (size_t)rng_int(r, 0, 3)); sb_put(S, "\n", 1); vf_tag(c, "mm-blank-line-in-header"); }
     if (want_token) F->hazard = "mm-comment-token-64plus";
     if (want_longline) F->hazard = "mm-comment-line-over-511";
     sb_printf(S, "%s%d%s%d%s%d\n", rng_bool(r, 0.2) ? "  " : "", n, rand_sep(r, 0), n, rand_sep(r, 0), nnz);
